@@ -231,6 +231,15 @@ def run(ctx):
         items.append((("lread", i), ["lread %s/r%d.dump %r %r %r %r" % (work, i, x, v, f, L)]))
         items.append((("lwrite", i), ["lwrite %s/w%d.dump %r %r %r %r" % (work, i, x, v, f, L)]))
         items.append((("ldata", i), ["ldata %s/d%d.data %r %r %r %r" % (work, i, x, L, 10.0 + i, 0.5 + i)]))
+    # every coordinate style the dump reader accepts, the same two-atom configuration in a non-cubic box
+    style_inputs = [((20.0, 30.0, 50.0), (3.0, 7.5, 12.5), (17.0, 21.0, 44.0))]
+    for _ in range(nrand):
+        L = tuple(float(rng.randint(10, 90)) for _ in range(3))
+        style_inputs.append((L,) + tuple(tuple(rng.randint(1, 15) / 16.0 * l for l in L) for _ in range(2)))
+    for i, (L, p1, p2) in enumerate(style_inputs):
+        for st in ("xyz", "xs", "xu"):
+            items.append((("lstyle", st, i), ["lstyle %s/s%d%s.dump %s %s" % (
+                work, i, st, st, " ".join(repr(x) for x in L + p1 + p2))]))
     for r in elements:
         items.append((("el", r["z"]), ["element %d %s" % (r["z"], r["sym"])]))
     results, crashes = vlib.run_items(exe, items)
@@ -257,13 +266,16 @@ def run(ctx):
         if p[0] == "lexpr":
             lexpr[p[1]] = float(p[2])
     lobs = {}
-    for i in range(len(lam_inputs)):
-        for kind in ("lread", "lwrite", "ldata"):
-            got = lines((kind, i))
+    lam_items = [((kind, i), kind, lam_inputs[i]) for i in range(len(lam_inputs)) for kind in ("lread", "lwrite", "ldata")]
+    lam_items += [(("lstyle", st, i), "lstyle:" + st, style_inputs[i]) for i in range(len(style_inputs))
+                  for st in ("xyz", "xs", "xu")]
+    for iid, kind, inp in lam_items:
+        if True:
+            got = lines(iid)
             exc = [ln for ln in got if ln.startswith("exc")]
             if exc:
                 violation("lammps:%s:exception" % kind, "real reader/writer failed on a one-atom file: %s" % exc[0],
-                          {"cmd": kind, "input": lam_inputs[i]})
+                          {"cmd": kind, "input": inp})
             else:
                 ctx.traces += 1
             for ln in got:
